@@ -9,6 +9,9 @@ use consts::{HADDR_SPENDER_INDEX, HADDR_SPENDER_TX};
 // pub use executor::*;
 
 use executor::Executor;
+/// Re-export of the interpreter, only compiled for the verification harness (`--cfg melstf_verif`).
+#[cfg(melstf_verif)]
+pub use executor::Executor as VerifExecutor;
 use opcode::{opcodes_weight, DecodeError, OpCode};
 use serde::{Deserialize, Serialize};
 use melstructs::{Address, CoinDataHeight, CoinID, Header, Transaction};
